@@ -33,6 +33,9 @@ ENCODINGS = {
     # class names of different lengths; the array has the dtype numpy gives the listed values (an unobserved class may be
     # longer than every string in y)
     "strlong": ("nan", None, ["a", "b", "new york"]),
+    # a float array whose sentinel is a Python int, and a single-precision array with NaN
+    "fint": (-1, float, [10.0, 20.0, 30.0]),
+    "f32nan": (np.nan, np.float32, [1.0, 2.0, 3.0]),
 }
 REG_SENTINELS = {"num": -999.0}
 
